@@ -29,6 +29,18 @@ CHECKS["C01"] = dict(
         "The as-built end-of-file rule (AsBuilt=TRUE) is kept as a regression witness that TLC refutes.",
    technique="TLA+ L1 mechanism model checked by TLC + replay of every model behaviour into the reader + TLC trace validation against L0",
    design="6/C01")
+CHECKS["C12"] = dict(
+   text="spec/Synchronise.tla models the per-contig generator with its one-group look-ahead AND the consumer's number of pulls "
+        "(pipelines zipped with contig names/sizes stop after the last contig; reductions pull once more), and SynchedStream. TLC "
+        "enumerates every genome of <=4 contigs x every sequence of distinct contig groups (all subsets in all orders, unknown and "
+        "ignored names) x both consumers, checks NoSilentDrop/NoSpuriousError/PrefixRight, and every terminal behaviour is replayed "
+        "through the real streamed pipelines (mask/pile-up/track get_data, field nodes, sums, MultiStream, contingency table, ragged "
+        "contig columns) under several chunkings. The hazard is an interaction between generator and consumer, i.e. a schedule: model "
+        "checking the pair is the right level.",
+   note=TB + "Bounds: genomes of 1-3 contigs quick / 1-4 thorough, groups of 1-2 entries, 4 chunkings per case. The as-built generator "
+        "(check after the yield) is kept as a regression witness that TLC refutes.",
+   technique="TLA+ generator+consumer model checked by TLC; every terminal behaviour replayed into the real pipelines",
+   design="6/C12")
 PENDING = {}
 def main():
     props = [json.loads(l)["id"] for l in open(os.path.join(HERE, "properties.jsonl"))]
